@@ -333,9 +333,11 @@ func (e *mgEnv) inject(ctx context.Context, a mgAttempt) {
 	case <-ctx.Done():
 		// Reconnect cancels this very context before it returns: give the call a moment to finish
 		// (and record its result) before the attempt goes on
-		select {
-		case <-done:
-		case <-time.After(50 * time.Millisecond):
+		if a.injAct == 'k' {
+			select {
+			case <-done:
+			case <-time.After(50 * time.Millisecond):
+			}
 		}
 	}
 }
